@@ -69,7 +69,15 @@ func c18Content(name string, tpl []byte) []byte {
 			}
 			return m
 		}
-		return append(append([]byte{}, tpl...), '\n', '#', 'x') // longer than the template
+		// longer than the template: if the solver's third byte is white space, the real file is the template plus
+		// that byte (a difference in trailing white space only), otherwise the template plus a comment line
+		if b2 := verifrt.U8(verifrt.N(name+".b", 2)); b2 == ' ' || (b2 >= '\t' && b2 <= '\r') {
+			return append(append([]byte{}, tpl...), b2)
+		}
+		if b0 := verifrt.U8(verifrt.N(name+".b", 0)); b0 == ' ' || (b0 >= '\t' && b0 <= '\r') {
+			return append([]byte{b0}, tpl...) // leading white space only
+		}
+		return append(append([]byte{}, tpl...), '\n', '#', 'x')
 	}
 	b := make([]byte, 0, 3)
 	for i := 0; i < 3; i++ {
